@@ -6,6 +6,7 @@ import SciVerif.Lemmas.C13k
 import SciVerif.Lemmas.C13l
 import SciVerif.Lemmas.C13m
 import SciVerif.Lemmas.C13n
+import SciVerif.Lemmas.C13o
 
 /-!
 # C13 — DIP node paths follow indentation and values are the literals written
@@ -305,6 +306,58 @@ theorem C13_inline_array_shape (items : List (Str × List Tok)) (sh : List Nat) 
     parseJson ('[' :: (joinWith [','] (items.map Prod.fst) ++ [']'])) =
       .ok (items.length :: sh, items.flatMap Prod.snd) :=
   parseJson_rendered (Rendered.arr items sh hne h)
+
+/-! ### inline arrays at text level: from the line as written to the node `parse` returns -/
+
+/-- **Nested inline arrays, text level.**  The definition line
+    `<k blanks>name type[dims] = [[…],[…]] [unit] [# comment]` (any number of blanks in every gap; the array a
+    rendered rectangular nested list of ANY depth ≥ 1 without `#`, backslash, `$`) goes through the whole
+    front end: (1) the lexer returns the definition node whose raw value is exactly the array text;
+    (2) `set_value` = `cast_value` on that node gives the array of the element casts with shape = the nesting
+    dimensions, provided the declared dimension admits the shape; (3) `parse` on the one-line program returns
+    exactly one parameter: the name, type, width/sign, dimension and unit written, and that array value.
+    (`hunit`: a unit is written only on int/float lines and is known; `hel`: the element casts succeed.) -/
+theorem C13_inline_array_text (tbl : List UnitRow) (k : Nat) (nm : Str) (a : Nat) (ty : TyD) (dims : Option (List DimD))
+    (b c : Nat) (s : Str) (sh : List Nat) (toks : List Tok) (atoms : List Atom) (ds : List Dim)
+    (unit cm : Option (Nat × Str))
+    (hn : NameOk nm) (hd : DimsOk dims) (hu : ∀ n x, unit = some (n, x) → UnitOk x)
+    (htail : NoEsc (renderTail unit cm))
+    (hunit : ∀ n x, unit = some (n, x) → (ty.ty = .int ∨ ty.ty = .float) ∧ tbl.any (fun r => r.name = x) = true)
+    (hr : Rendered s sh toks) (hsh : sh ≠ []) (hplain : ∀ ch ∈ s, ch ≠ '#' ∧ ch ≠ '\\' ∧ ch ≠ '$')
+    (hds : dimsValue dims = some ds) (hel : toks.mapM (tokAtom ty.ty) = .ok atoms) (hcd : checkDims ds sh = true) :
+    let line := List.replicate k ' ' ++ (definePrefix nm a ty dims b c ++ (s ++ renderTail unit cm))
+    determine line = .ok (blockNode k nm ty dims s unit) ∧
+    initValue (mkParams tbl) ty.ty (some ds) (some (.text s)) = .ok (some (.array sh atoms)) ∧
+    parseLines (mkParams tbl) [line] =
+      .ok [{ name := nm, ty := ty.ty, info := ty.info, dims := some ds, units := unit.map Prod.snd,
+             value := some (.array sh atoms), declared := false }] := by
+  intro line
+  obtain ⟨r, hsr⟩ := rendered_head hr hsh
+  have hws := rendered_noWs hr
+  have hlit : Lit.Ok (.bare s) :=
+    ⟨⟨'[', r, hsr, by decide, by decide, by decide, by decide⟩, fun ch hch => ⟨(hplain ch hch).1, hws ch hch⟩⟩
+  have hdet : determine line = .ok (blockNode k nm ty dims s unit) :=
+    determine_define_bare k nm a ty dims b c s unit cm hn hd hu htail hlit
+      (fun ch hch => ⟨(hplain ch hch).2.1, (hplain ch hch).2.2⟩)
+  have hnone : (s == "none".toList) = false := ne_none_of_head _ (by rw [hsr]; simp)
+  have hcast := (C13_inline_array ty.ty ds s sh toks atoms hr hnone hel hcd).2
+  have hinit : initValue (mkParams tbl) ty.ty (some ds) (some (.text s)) = .ok (some (.array sh atoms)) := by
+    have he : s.isEmpty = false := by rw [hsr]; rfl
+    simp only [initValue, he, Bool.false_and, Bool.false_eq_true, if_false, mkParams, hcast, bind, Except.bind]
+  refine ⟨hdet, hinit, ?_⟩
+  have h := parseLines_single_define (mkParams tbl) line _ ty.ty nm (.array sh atoms) hdet rfl rfl
+    (preCheck_blockNode tbl k nm ty dims s unit hunit) (by simpa only [blockNode, hds] using hinit)
+  simpa only [blockNode, hds] using h
+
+example : Rendered "[[1,2],[3,4]]".toList [2, 2] [.bare "1".toList, .bare "2".toList, .bare "3".toList, .bare "4".toList] := by
+  have t : ∀ x : Str, x = "1".toList ∨ x = "2".toList ∨ x = "3".toList ∨ x = "4".toList → TokOk x := by
+    intro x hx; rcases hx with rfl | rfl | rfl | rfl <;> exact ⟨⟨_, _, rfl, by decide⟩, by decide⟩
+  have r1 := Rendered.arr [("1".toList, [.bare "1".toList]), ("2".toList, [.bare "2".toList])] [] (by simp)
+    (by intro it h; simp at h; rcases h with rfl | rfl <;> exact Rendered.tok _ (t _ (by simp)))
+  have r2 := Rendered.arr [("3".toList, [.bare "3".toList]), ("4".toList, [.bare "4".toList])] [] (by simp)
+    (by intro it h; simp at h; rcases h with rfl | rfl <;> exact Rendered.tok _ (t _ (by simp)))
+  exact Rendered.arr [("[1,2]".toList, [.bare "1".toList, .bare "2".toList]), ("[3,4]".toList, [.bare "3".toList, .bare "4".toList])]
+    [2] (by simp) (by intro it h; simp only [List.mem_cons, List.not_mem_nil, or_false] at h; rcases h with rfl | rfl; exact r1; exact r2)
 
 /-- **Escaped quotes.**  A definition whose double-quoted value is written with `\\"` for every quote
     character of the intended text `s` (`s` itself free of backslash, newline and `$`): the lexer marks
